@@ -41,40 +41,42 @@ type FSig struct {
 }
 
 type TCfg struct {
-	MaxDepth         int // expression depth
-	MaxStmts         int // statements per block
-	MaxBlockDepth    int
-	MaxParams        int  // up to this many parameters per function
-	MaxLoopDepth     int  // nesting of counted loops
-	Floats           bool // use float arithmetic
-	Containers       bool // arrays and maps
-	Errors           bool // error()/catch() and deliberate type errors
-	Closures         bool // nested function literals capturing variables
-	Recursion        bool
-	PrintEvery       bool // println of a variable after most statements
-	UpperNames       bool // some variables / parameters / loop variables get upper-case (constant style) names
-	ShadowNames      bool // loop variables and parameters may reuse names of outer bindings
-	BoundaryInts     bool
-	Variadics        bool
-	IncrDecr         bool
-	FreshLoopVars    bool // loop variables get fresh lower-case names that nothing else uses (known finding K-C05-1/-4)
-	NoLoopVarCapture bool // function literals inside a counted loop never mention its variable (known finding K-C05-3)
-	PureParamAssign  bool // an integer parameter is only ever assigned pure integer arithmetic (known finding K-C05-2)
-	NoAssocRight     bool // never build a right operand with the same precedence as its parent (known finding K-C02-1 changes such trees when printed)
+	MaxDepth           int // expression depth
+	MaxStmts           int // statements per block
+	MaxBlockDepth      int
+	MaxParams          int  // up to this many parameters per function
+	MaxLoopDepth       int  // nesting of counted loops
+	Floats             bool // use float arithmetic
+	Containers         bool // arrays and maps
+	Errors             bool // error()/catch() and deliberate type errors
+	Closures           bool // nested function literals capturing variables
+	Recursion          bool
+	PrintEvery         bool // println of a variable after most statements
+	UpperNames         bool // some variables / parameters / loop variables get upper-case (constant style) names
+	ShadowNames        bool // loop variables and parameters may reuse names of outer bindings
+	BoundaryInts       bool
+	Variadics          bool
+	IncrDecr           bool
+	FreshLoopVars      bool // loop variables get fresh lower-case names that nothing else uses (known finding K-C05-1/-4)
+	NoLoopVarCapture   bool // function literals inside a counted loop never mention its variable (known finding K-C05-3)
+	PureParamAssign    bool // an integer parameter is only ever assigned pure integer arithmetic (known finding K-C05-2)
+	NoUpperInRecursion bool // no upper-case (constant) names are bound inside a function that calls itself (known finding K-C04-1)
+	NoAssocRight       bool // never build a right operand with the same precedence as its parent (known finding K-C02-1 changes such trees when printed)
 }
 
 type TGen struct {
-	t      *rapid.T
-	c      TCfg
-	scopes [][]tvar
-	funcs  []*FSig
-	ret    *TType // inside a function: its return type
-	loops  int    // loop nesting (break/continue allowed)
-	cloops int    // counted loop nesting
-	blocks int
-	nameN  int
-	fuelOK bool // a fuel variable "fuel" is in scope (recursive call allowed)
-	self   *FSig
+	t           *rapid.T
+	c           TCfg
+	scopes      [][]tvar
+	funcs       []*FSig
+	ret         *TType // inside a function: its return type
+	loops       int    // loop nesting (break/continue allowed)
+	cloops      int    // counted loop nesting
+	blocks      int
+	nameN       int
+	fuelOK      bool // a fuel variable "fuel" is in scope (recursive call allowed)
+	inRecursive int  // nesting of self-calling functions being generated
+	self        *FSig
 }
 
 func NewTGen(t *rapid.T, c TCfg) *TGen {
@@ -147,7 +149,7 @@ func (g *TGen) loopVarName() string {
 }
 
 func (g *TGen) newName(shadowOK bool) string {
-	if g.c.UpperNames && g.chance(6, "upper") {
+	if g.c.UpperNames && !(g.c.NoUpperInRecursion && g.inRecursive > 0) && g.chance(6, "upper") {
 		return rapid.SampledFrom(upperNames).Draw(g.t, "uname")
 	}
 	if g.c.ShadowNames && shadowOK && g.chance(3, "shadow") {
@@ -685,6 +687,8 @@ func (g *TGen) funcDef() []*Node {
 	oldRet, oldLoops, oldCloops, oldSelf := g.ret, g.loops, g.cloops, g.self
 	g.loops, g.cloops = 0, 0
 	if recursive {
+		g.inRecursive++
+		defer func() { g.inRecursive-- }()
 		sig.Fuel = true
 		sig.Params = append(sig.Params, TInt)
 		params = append(params, "fuel")
